@@ -7,6 +7,7 @@ from __future__ import annotations
 
 import collections
 import copy
+import dataclasses
 import types
 import typing
 
@@ -609,4 +610,62 @@ def _forbidden_unknown_keys_whatever_the_count(ctx):
                 ctx.violation("unknown-key-set-differs", f"{cls.__name__} <- {datum!r}: {out!r:.200}, unknown keys are {unknown}", info)
 
 
-DIRECTED = {"forbidden-unknown-keys-whatever-the-count": _forbidden_unknown_keys_whatever_the_count, "extra-out-with-a-list-root": _extra_out_with_a_list_root, "generic-alias-as-single-predicate": _generic_alias_as_single_predicate, "omit-default-of-empty-factories": _omit_default_of_empty_factories, "map-reaches-every-descendant": _map_reaches_every_descendant, "enum-class-as-single-predicate": _enum_class_as_single_predicate, "omit-default-unhashable-default": _omit_default_unhashable, "collected-extras-known-branches": _collected_extras_known_branches}
+@dataclasses.dataclass
+class _LPt:
+    x_pos: int = 0
+    y_: int = 0
+    tags: list = dataclasses.field(default_factory=list)
+
+
+@dataclasses.dataclass
+class _LSeg:
+    start: _LPt
+    finish: _LPt
+
+
+def _layouts_bound_to_locations(ctx):
+    """ONE model reached at two locations of one retort (and on its own) under name_mapping providers bound to the LOCATION (P[Seg].start):
+    each location gets exactly the layout of the provider matched there - compared with fresh retorts that configure the inner model alone
+    (seeded change: the sieves of a dict crown left out of equality, so the cached dumper of the first layout served the second)."""
+    import itertools  # noqa: PLC0415
+    from adaptix import P, name_mapping  # noqa: PLC0415
+
+    Pt, Seg = _LPt, _LSeg
+    options = [("default", {}), ("omit_default", {"omit_default": True}), ("camel", {"name_style": NameStyle.CAMEL}), ("map", {"map": {"x_pos": "X"}}), ("skip", {"skip": ["y_"]}),
+               ("as_list", {"as_list": True}), ("no-trim", {"trim_trailing_underscore": False}), ("only", {"only": ["x_pos", "tags"]}),
+               ("omit+map", {"omit_default": True, "map": {"y_": ("n", "y")}}), ("omit-one", {"omit_default": "x_pos"}), ("nested", {"map": {"tags": ("meta", "tags")}})]
+    values = [(Pt(), Pt(1)), (Pt(0, 5), Pt(0, 0, ["t"])), (Pt(3, 4, ["a"]), Pt())]
+    turn = 0
+    for (na, a), (nb, b) in itertools.product(options, repeat=2):
+        if na == nb:
+            continue
+        for order in ("outer-first", "inner-first", "finish-bound-first"):
+            turn += 1
+            for dt, sc in (MODES[turn % len(MODES)],):   # the modes take turns: 330 retorts, each in one of the six modes
+                recipe = [name_mapping(P[Seg].start, **a), name_mapping(P[Seg].finish, **b)]
+                if order == "finish-bound-first":
+                    recipe.reverse()
+                r = make_retort(dt, sc, recipe)
+                ra, rb, r0 = make_retort(dt, sc, [name_mapping(Pt, **a)]), make_retort(dt, sc, [name_mapping(Pt, **b)]), make_retort(dt, sc, [])
+                for p1, p2 in values:
+                    info = {"start": na, "finish": nb, "order": order, "mode": mode_name(dt, sc), "value": repr((p1, p2))}
+                    ctx.evaluated(("bound-layouts", na, nb, order, dt.name, sc, repr((p1, p2))), nontrivial=True)
+                    ctx.count("location_bound_layouts")
+                    want_inner = r0.dump(p1, Pt)
+                    want = {"start": ra.dump(p1, Pt), "finish": rb.dump(p2, Pt)}
+                    steps = [("inner", lambda: r.dump(p1, Pt), want_inner), ("outer", lambda: r.dump(Seg(p1, p2), Seg), want)]
+                    if order == "outer-first":
+                        steps.reverse()
+                    for what, fn, expected in steps:
+                        got = attempt(fn)
+                        if got.kind != "ok" or not strict_eq(got.value, expected):
+                            ctx.violation("dump-layout-mismatch:location-bound", f"start={na}, finish={nb}, {order}: dump of the {what} model gave {got!r:.200}, the layouts configured per location give {expected!r:.200} "
+                                          f"[{mode_name(dt, sc)}]", info)
+                    back = attempt(r.load, copy.deepcopy(want), Seg)
+                    want_obj = attempt(lambda: Seg(ra.load(copy.deepcopy(want["start"]), Pt), rb.load(copy.deepcopy(want["finish"]), Pt)))
+                    if want_obj.kind == "ok" and (back.kind != "ok" or back.value != want_obj.value):
+                        ctx.violation("wrong-object:location-bound", f"start={na}, finish={nb}, {order}: load of {want!r:.160} gave {back!r:.200}, the layouts configured per location give {want_obj.value!r:.200} "
+                                      f"[{mode_name(dt, sc)}]", info)
+
+
+DIRECTED = {"layouts-bound-to-locations": _layouts_bound_to_locations, "forbidden-unknown-keys-whatever-the-count": _forbidden_unknown_keys_whatever_the_count, "extra-out-with-a-list-root": _extra_out_with_a_list_root, "generic-alias-as-single-predicate": _generic_alias_as_single_predicate, "omit-default-of-empty-factories": _omit_default_of_empty_factories, "map-reaches-every-descendant": _map_reaches_every_descendant, "enum-class-as-single-predicate": _enum_class_as_single_predicate, "omit-default-unhashable-default": _omit_default_unhashable, "collected-extras-known-branches": _collected_extras_known_branches}
